@@ -225,7 +225,7 @@ def run_unit(name, seed, tier):
             sres = run_verus(spath, seed, rlimit)
             r["wall"] += sres["wall"]
             svr = sres["out"].get("verification-results", {})
-            if not svr or svr.get("encountered-vir-error"):
+            if not svr or svr.get("encountered-vir-error") or (svr.get("encountered-error") and "verified" not in svr):
                 raise X.Undecided("smoke run did not complete: " + sres["stderr"][-300:])
             failed_fns = set()
             for d in sres["diags"]:
